@@ -1,6 +1,7 @@
 import SpVerif.J
 import SpVerif.Model.Prefix
 import SpVerif.Model.PrefixPdu
+import SpVerif.Model.CfdpFront
 import SpVerif.Ops.DirectiveFixed
 import SpVerif.Ops.FileData
 import SpVerif.Ops.SpacePacket
@@ -25,8 +26,9 @@ concatenation (one kind per expected unit; kinds may differ).
 `c09_stream {kind, cfg, raws:[hex]}` — decode units of one kind until the buffer is exhausted.
 `c09_pdu {kind, unit, suffix, alt}` — a CFDP PDU kind. The statement allows two behaviours for a PDU
 followed by further octets (decoded as the PDU alone, or refused with a documented error), so the op
-canonicalises: if `unit ‖ suffix` is refused with a documented error and the suffix is not empty,
-the result is that of `unit` alone (`trailing: "refused"`); both sides apply the same rule, so both
+canonicalises: if `unit ‖ suffix` is refused with a documented error and is longer than the PDU its
+own header declares, the result is that of the declared PDU alone (`trailing: "refused"`) — a rule
+that does not depend on where the caller split the buffer; both sides apply the same rule, so both
 allowed behaviours give the same compared fields and folding does not. `trailing` itself is
 informational (excluded from the comparison by the harness).
 -/
@@ -170,20 +172,54 @@ where
     | .ok r' => if r' = r then js "same" else js "differs"
     | .error e => js ("err:" ++ e.name)
 
+/-- the length the fixed header octets declare for the whole PDU (data-field length + header length
+    from the two width codes), when there are four octets to read it from -/
+def cfdpDeclared (d : Bytes) : Option Nat :=
+  match d with
+  | _ :: x1 :: x2 :: x3 :: _ =>
+    some (x1.toNat * 256 + x2.toNat + 4 + 2 * (x3.toNat / 16 % 8 + 1) + (x3.toNat % 8 + 1))
+  | _ => none
+
+/-- the rule, independent of where the caller split the buffer: a buffer that is refused with a
+    documented error and is longer than the PDU its own header declares is evaluated on the
+    declared PDU alone (refusing trailing octets is one of the two allowed behaviours) -/
 def pduOp (k : PduKind) (unit suffix alt : Bytes) : Json :=
-  match k.decode (unit ++ suffix) with
-  | .ok r => obj [("ok", pduJ k (unit ++ suffix) alt (if suffix.isEmpty then "none" else "decoded") r)]
+  let buf := unit ++ suffix
+  match k.decode buf with
+  | .ok r =>
+    let tr := match cfdpDeclared buf with
+      | some n => if n < buf.length then "decoded" else "none"
+      | none => "none"
+    obj [("ok", pduJ k buf alt tr r)]
   | .error e =>
-    if suffix.isEmpty || !e.documented then obj [("err", js e.name)]
-    else res (pduJ k unit alt "refused") (k.decode unit)
+    match cfdpDeclared buf with
+    | some n =>
+      if e.documented && n < buf.length then res (pduJ k (buf.take n) alt "refused") (k.decode (buf.take n))
+      else obj [("err", js e.name)]
+    | none => obj [("err", js e.name)]
 
 def pduOps : List (String × Handler) := [
   ("c09_pdu", fun j => do
       let k ← getPduKind j
       pure (pduOp k (← getHex j "unit") (← getHex j "suffix") (← getHex j "alt"))),
   -- PDU kinds whose model has not been merged yet (EOF, Finished, Metadata): the property is
-  -- evaluated on the implementation side only (self-checks); the model side has nothing to add
-  ("c09_pdu_tie", fun _ => pure (obj [("ok", obj [("checked", jb true)])]))
+  -- evaluated on the implementation side only (self-checks). What the model side CAN vouch for is
+  -- the framing of the buffer `unit ‖ suffix` as a whole (like every check of these ops it must not
+  -- depend on where the caller split the buffer): well-formed header, the whole declared PDU inside
+  -- the buffer, the directive code of the kind, residue zero when the CRC flag is set — so that a
+  -- damaged buffer is rejected here and can never become a "witness".
+  ("c09_pdu_tie", fun j => do
+      let code ← match ← getStr j "kind" with
+        | "eof" => pure 4
+        | "finished" => pure 5
+        | "metadata" => pure 7
+        | k => .error s!"unknown tie-only PDU kind {k}"
+      let buf := (← getHex j "unit") ++ (← getHex j "suffix")
+      let _ ← getHex j "alt"
+      pure (res (fun (_ : Unit) => obj [("checked", jb true)])
+        (do let (_, c) ← CfdpFront.directiveFront buf
+            if c ≠ code then throw .value
+            pure ())))
 ]
 
 def ops : List (String × Handler) := unitOps ++ pduOps
